@@ -703,6 +703,36 @@ let suite_lock (line : string) : string =
       Printf.sprintf "%s %s" id (String.concat " " res)
   | _ -> failwith "bad lock case"
 
+(* ---------- suite: lockp (ownership with a non-atomic destroy_database) ---------- *)
+let suite_lockp (line : string) : string =
+  match split_nonempty ' ' line with
+  | id :: steps ->
+      let w = ref pworld_init in
+      let maxopen = ref 0 in
+      let show = function POk -> "ok" | PErr -> "err" | PNone -> "none" | PParked -> "parked" in
+      let res =
+        List.map
+          (fun st ->
+            let body = String.sub st 1 (String.length st - 1) in
+            let a = match st.[0] with
+              | 'O' -> POpenH (name_id body)
+              | 'X' -> PCloseH (name_id body)
+              | 'E' -> PDestroyStart
+              | 'F' -> PDestroyUnlink
+              | 'H' -> PDestroyFinish
+              | _ -> failwith "bad lockp step" in
+            (* H lets the destroyer finish from wherever it is parked *)
+            if st.[0] = 'H' && !w.pw_dphase = n_of_int 1 then w := fst (pstep true !w PDestroyUnlink);
+            let w', o = pstep true !w a in
+            w := w';
+            maxopen := Stdlib.max !maxopen (Stdlib.List.length w'.pw_open);
+            (* closing a handle that is not open *)
+            if st.[0] = 'X' && o = PNone then "nohandle" else show o)
+          steps
+      in
+      Printf.sprintf "%s %s | maxopen=%d" id (String.concat " " res) !maxopen
+  | _ -> failwith "bad lockp case"
+
 (* ---------- suite: sched (the concurrency model on Tier-A scripts) ---------- *)
 (* case: <id> <cfg> step ...  with a third field d6fix flag appended to cfg as "...:reuse:d6"
    (default 1). Steps the model does not cover (scans, snapshots, compaction of tables) print "*". *)
@@ -953,7 +983,7 @@ let suite_stepcheck (line : string) : string =
         (fun ev ->
           let args = brackets ev in
           match ev.[0], args with
-          | 'O', [ m ] -> mfs := n_of_string m; recovering := true
+          | 'O', m :: _ -> mfs := n_of_string m; recovering := true
           | 'R', _ -> recovering := false
           | 'C', [ level; in0; in1; ss ] ->
               (* the inputs were selected on the version current at this moment *)
@@ -1040,6 +1070,234 @@ let suite_stepcheck (line : string) : string =
   | [ id ] -> id ^ " ok steps=0"
   | _ -> failwith "bad stepcheck case"
 
+
+(* ---------- suite: recover (the recovery function on a directory image) ---------- *)
+let parse_image (img : string) : image =
+  let pairs tag f =
+    List.map
+      (fun item ->
+        match String.index_opt item '=' with
+        | Some i -> (n_of_string (String.sub item 0 i), f (String.sub item (i + 1) (String.length item - i - 1)))
+        | None -> failwith ("bad image item " ^ item))
+      (split_nonempty ';' (between img tag)) in
+  let cur =
+    let v = between img "C" in
+    if v = "-" then None else Some (parse_bytes v) in
+  { i_current = cur;
+    i_manifests = pairs "M" parse_bytes;
+    i_wals = pairs "W" parse_bytes;
+    i_tables = pairs "T" (fun e -> if e = "unreadable" then None else Some (parse_entries e));
+    i_temps = List.map (fun x -> (n_of_string x, [])) (split_nonempty ';' (between img "X")) }
+
+let show_rec_error = function
+  | ENoCurrent -> "no-current" | EBadCurrent -> "bad-current" | ENoManifest -> "no-manifest"
+  | EManifestPanic -> "manifest-panic" | EManifestDecode -> "manifest-decode"
+  | EManifestSkipped -> "manifest-skipped" | EManifestFields -> "manifest-fields"
+  | EOverlap -> "overlap" | EMissingFile -> "missing-file" | EWalPanic -> "wal-panic"
+  | EWalDecode -> "wal-decode"
+
+let suite_recover (line : string) : string =
+  (* <id> IMG[...] *)
+  let sp = String.index line ' ' in
+  let id = String.sub line 0 sp in
+  let img = parse_image (String.sub line (sp + 1) (String.length line - sp - 1)) in
+  match recover_image img with
+  | Inr e -> Printf.sprintf "%s err %s" id (show_rec_error e)
+  | Inl r ->
+      let needed =
+        List.filter (fun f -> rec_needs img r f)
+          (List.map fst img.i_manifests @ List.map fst img.i_wals @ List.map fst img.i_tables) in
+      Printf.sprintf "%s ok %s %s readable=%b man=%s wal=%s next=%s intact=%b wals=%s needs=%s" id
+        (string_of_n r.rc_seq) (show_pairs (rec_contents img r)) (rec_readable img r)
+        (string_of_n r.rc_manifest.ms_number) (string_of_n r.rc_manifest.ms_wal)
+        (string_of_n r.rc_manifest.ms_next) r.rc_manifest.ms_intact
+        (String.concat ";" (List.map (fun w -> string_of_n w.wr_number ^ ":" ^ string_of_int (List.length w.wr_batches) ^ ":" ^ string_of_bool w.wr_intact) r.rc_wals))
+        (String.concat ";" (List.map string_of_n needed))
+
+(* ---------- suite: proto (the persistence protocol re-derives the directory) ---------- *)
+let split_on_string (sep : char) (s : string) = String.split_on_char sep s
+
+let norm_manifest (bytes : n list) =
+  let rx = log_read_all_x bytes in
+  match decode_changes rx.rx_records with
+  | Some cs -> Some (List.map (fun c -> { c with vc_deleted = List.sort compare c.vc_deleted }) cs, rx.rx_intact, rx.rx_skipped)
+  | None -> None
+
+let show_change (c : vchange) : string =
+  let o = function None -> "-" | Some x -> string_of_n x in
+  Printf.sprintf "{wal=%s prev=%s next=%s seq=%s ptr=[%s] del=[%s] new=[%s]}" (o c.vc_wal) (o c.vc_prev_wal) (o c.vc_curr_file) (o c.vc_prev_seq)
+    (String.concat ";" (List.map (fun (l, k) -> string_of_n l ^ "@" ^ show_key k) c.vc_pointers))
+    (String.concat ";" (List.map (fun (l, x) -> string_of_n l ^ ":" ^ string_of_n x) c.vc_deleted))
+    (String.concat ";" (List.map (fun (l, f) -> Printf.sprintf "%s:%s@%s@%s~%s" (string_of_n l) (string_of_n f.fm_num) (string_of_n f.fm_size) (show_key f.fm_small) (show_key f.fm_large)) c.vc_new))
+
+let image_diff (real : image) (model : image) : string option =
+  let nums l = List.sort compare (List.map (fun (x, _) -> string_of_n x) l) in
+  let first_some l = List.fold_left (fun acc f -> match acc with Some _ -> acc | None -> f ()) None l in
+  first_some [
+    (fun () -> if real.i_current <> model.i_current then
+        Some (Printf.sprintf "CURRENT: implementation %s, model %s"
+                (match real.i_current with None -> "absent" | Some b -> "x" ^ hex_of_bytes b)
+                (match model.i_current with None -> "absent" | Some b -> "x" ^ hex_of_bytes b)) else None);
+    (fun () -> if nums real.i_manifests <> nums model.i_manifests then
+        Some (Printf.sprintf "manifest files: implementation [%s], model [%s]" (String.concat ";" (nums real.i_manifests)) (String.concat ";" (nums model.i_manifests))) else None);
+    (fun () -> if nums real.i_wals <> nums model.i_wals then
+        Some (Printf.sprintf "log files: implementation [%s], model [%s]" (String.concat ";" (nums real.i_wals)) (String.concat ";" (nums model.i_wals))) else None);
+    (fun () -> if nums real.i_tables <> nums model.i_tables then
+        Some (Printf.sprintf "table files: implementation [%s], model [%s]" (String.concat ";" (nums real.i_tables)) (String.concat ";" (nums model.i_tables))) else None);
+    (fun () -> if nums real.i_temps <> nums model.i_temps then
+        Some (Printf.sprintf "temp files: implementation [%s], model [%s]" (String.concat ";" (nums real.i_temps)) (String.concat ";" (nums model.i_temps))) else None);
+    (fun () -> first_some (List.map (fun (nn, rb) () ->
+        match List.assoc_opt nn model.i_wals with
+        | Some mb when mb = rb -> None
+        | Some mb -> Some (Printf.sprintf "log %s: bytes differ (implementation %d bytes, model %d bytes)" (string_of_n nn) (List.length rb) (List.length mb))
+        | None -> None) real.i_wals));
+    (fun () -> first_some (List.map (fun (nn, re) () ->
+        match List.assoc_opt nn model.i_tables with
+        | Some me when me = re -> None
+        | Some me -> Some (Printf.sprintf "table %s: entries differ (implementation %s, model %s)" (string_of_n nn)
+                            (match re with None -> "unreadable" | Some es -> string_of_int (List.length es))
+                            (match me with None -> "unreadable" | Some es -> string_of_int (List.length es)))
+        | None -> None) real.i_tables));
+    (fun () -> first_some (List.map (fun (nn, rb) () ->
+        match List.assoc_opt nn model.i_manifests with
+        | None -> None
+        | Some mb ->
+            (match norm_manifest rb, norm_manifest mb with
+             | Some (rc, ri, rs), Some (mc, mi, ms) ->
+                 if rc = mc && ri = mi && rs = ms && List.length rb = List.length mb then None
+                 else if List.length rc <> List.length mc then
+                   Some (Printf.sprintf "manifest %s: %d records in the implementation's file, %d in the model's" (string_of_n nn) (List.length rc) (List.length mc))
+                 else if rc = mc then Some (Printf.sprintf "manifest %s: same records but different framing (%d / %d bytes)" (string_of_n nn) (List.length rb) (List.length mb))
+                 else
+                   let rec firstdiff i a b = match a, b with
+                     | x :: a', y :: b' -> if x = y then firstdiff (i + 1) a' b' else Some (i, x, y)
+                     | _ -> None in
+                   (match firstdiff 0 rc mc with
+                    | Some (i, x, y) -> Some (Printf.sprintf "manifest %s record %d: implementation %s, model %s" (string_of_n nn) i (show_change x) (show_change y))
+                    | None -> Some "manifest differs")
+             | None, _ -> Some (Printf.sprintf "manifest %s of the implementation does not decode" (string_of_n nn))
+             | _, None -> Some (Printf.sprintf "manifest %s of the model does not decode" (string_of_n nn)))) real.i_manifests));
+  ]
+
+let parse_add (a : string) =
+  match String.split_on_char '@' a with
+  | [ l; num; size; range; ents ] ->
+      let sm, lg = match String.split_on_char '~' range with [ x; y ] -> (x, y) | _ -> failwith "range" in
+      let es = if ents = "unreadable" then [] else parse_entries ents in
+      ((n_of_string l, { fm_num = n_of_string num; fm_size = n_of_string size; fm_small = parse_ikey sm; fm_large = parse_ikey lg }), es)
+  | _ -> failwith ("bad add " ^ a)
+
+let parse_adds add = if add = "-" || add = "" then [] else List.map parse_add (String.split_on_char '+' add)
+
+let max_seq (es : (ikey * n list) list) : n =
+  List.fold_left (fun m (k, _) -> if N.ltb m k.ik_seq then k.ik_seq else m) N0 es
+
+(* events after an open / inside an operation -> protocol steps *)
+let installs_of (evs : string list) : pop list =
+  let ptrs = ref [] in
+  List.concat_map
+    (fun ev ->
+      let args = brackets ev in
+      match ev.[0], args with
+      | 'N', _ -> [ QRotate ]
+      | 'L', [ _; _; _; p ] ->
+          ptrs := List.map (fun x -> match String.index_opt x '@' with
+                     | Some i -> (n_of_string (String.sub x 0 i), parse_ikey (String.sub x (i + 1) (String.length x - i - 1)))
+                     | None -> failwith "ptr") (split_nonempty ';' p);
+          []
+      | 'I', [ del; add; seq ] ->
+          let dels = List.map (fun d -> match String.split_on_char ':' d with [ l; nn ] -> (n_of_string l, n_of_string nn) | _ -> failwith "del") (split_nonempty ';' del) in
+          let adds = parse_adds add in
+          let q = n_of_string seq in
+          let p = !ptrs in
+          ptrs := [];
+          if dels = [] then
+            (match adds with
+             | [] -> [ QFlush (N0, N0, q) ]
+             | [ ((l, f), _) ] -> [ QFlush (l, f.fm_size, q) ]
+             | _ -> [ QInstall (dels, adds, p, q) ])
+          else [ QInstall (dels, adds, p, q) ]
+      | _ -> [])
+    evs
+
+let suite_proto (line : string) : string =
+  match split_nonempty ' ' line with
+  | id :: segs ->
+      let state = ref prun_init in
+      let problem = ref None in
+      let nsteps = ref 0 and nsegs = ref 0 in
+      List.iteri
+        (fun si seg ->
+          if !problem = None then
+            match String.split_on_char '%' seg with
+            | [ op; res; evs; img ] when evs <> "closed" ->
+                incr nsegs;
+                let evl = if evs = "-" then [] else String.split_on_char '|' evs in
+                let real = parse_image img in
+                let run pops =
+                  let st, _ = p_run !state pops in st in
+                let finish pops =
+                  let st = run pops in
+                  nsteps := !nsteps + List.length pops;
+                  state := st;
+                  if st.pr_failed then problem := Some (Printf.sprintf "op %d %s: the model's step fails (open error or assertion)" si (String.sub op 0 1))
+                  else match image_diff real st.pr_img with
+                    | Some d -> problem := Some (Printf.sprintf "op %d %s: %s" si (if String.length op > 40 then String.sub op 0 40 else op) d)
+                    | None -> () in
+                (match op.[0] with
+                 | 'O' ->
+                     if res <> "ok" then problem := Some (Printf.sprintf "op %d: open failed in the implementation: %s" si res)
+                     else begin
+                       let cfg = String.split_on_char ':' (String.sub op 1 (String.length op - 1)) in
+                       let mfs = n_of_string (List.nth cfg 1) and reuse = List.nth cfg 3 = "1" in
+                       (* events up to R[] belong to the open *)
+                       let rec split_at_r acc = function
+                         | [] -> (List.rev acc, [])
+                         | e :: r -> if e.[0] = 'R' then (List.rev acc, r) else split_at_r (e :: acc) r in
+                       let inside, after = split_at_r [] evl in
+                       let adds = List.concat_map (fun ev -> match ev.[0], brackets ev with
+                         | 'I', [ _; add; _ ] -> parse_adds add | _ -> []) inside in
+                       let sizes = List.map (fun ((_, f), _) -> (f.fm_num, f.fm_size)) adds in
+                       let cuts_all = List.map (fun (_, es) -> max_seq es) adds in
+                       (* a table that ends with the last batch of a log is normally the flush at the end of that log *)
+                       let img0 = !state.pr_img in
+                       let ends = match recover_image img0 with
+                         | Inl rc -> List.concat_map (fun w -> match List.rev w.wr_batches with b :: _ -> [ batch_last_seq b ] | [] -> []) rc.rc_wals
+                         | Inr _ -> [] in
+                       let cuts1 = List.filter (fun c -> not (List.mem c ends)) cuts_all in
+                       let mk cuts = QOpen { oo_reuse = reuse; oo_max_file_size = mfs; oo_cuts = cuts; oo_sizes = sizes } :: installs_of after in
+                       let try1 = mk cuts1 in
+                       let st1 = run try1 in
+                       if cuts1 <> cuts_all && (st1.pr_failed || image_diff real st1.pr_img <> None) then finish (mk cuts_all)
+                       else finish try1
+                     end
+                 | 'P' | 'D' | 'B' ->
+                     let w = match parse_hop op with HWrite b -> b | _ -> failwith "write" in
+                     let pre, rest = match evl with e :: r when e.[0] = 'N' -> ([ QRotate ], r) | _ -> ([], evl) in
+                     finish (pre @ (if res = "ok" then [ QWrite w ] else []) @ installs_of rest)
+                 | _ -> finish (installs_of evl))
+            | _ -> ())
+        segs;
+      Printf.sprintf "%s %s segs=%d steps=%d" id
+        (match !problem with None -> "ok" | Some p -> "DIFF:" ^ String.map (fun c -> if c = ' ' then '_' else c) p) !nsegs !nsteps
+  | _ -> failwith "bad proto case"
+
+(* ---------- suite: wfault (the write path under a failing log append, Faults.v) ---------- *)
+let suite_wfault (line : string) : string =
+  (* <id> <j>:<n> op op ...   the append of operation j lets n bytes through and fails (j = -1: no fault) *)
+  match split_nonempty ' ' line with
+  | id :: plan :: ops ->
+      let j, nb = match String.split_on_char ':' plan with [ a; b ] -> (int_of_string a, int_of_string b) | _ -> failwith "plan" in
+      let ws = List.mapi (fun i op ->
+        let w = match parse_hop op with HWrite b -> b | _ -> failwith "wfault op" in
+        (w, if i = j then FailAfter (nat_of_int nb) else NoFault)) ops in
+      let s, rs = f_run f_init ws in
+      Printf.sprintf "%s %s | %s | x%s | %s" id
+        (String.concat ";" (List.map (function WOk -> "ok" | WErr -> "err") rs))
+        (show_pairs (f_contents s)) (hex_of_bytes s.f_wal)
+        (match f_reopen s with Some m -> show_pairs m | None -> "open-err")
+  | _ -> failwith "bad wfault case"
+
 let () =
   let suite = Sys.argv.(1) in
   let f =
@@ -1057,10 +1315,14 @@ let () =
     | "itercheck" -> suite_itercheck
     | "wspec" -> suite_wspec
     | "lock" -> suite_lock
+    | "lockp" -> suite_lockp
     | "sched" -> suite_sched
     | "codec" -> suite_codec
     | "gccheck" -> suite_gccheck
     | "stepcheck" -> suite_stepcheck
+    | "recover" -> suite_recover
+    | "proto" -> suite_proto
+    | "wfault" -> suite_wfault
     | _ -> failwith ("unknown suite " ^ suite)
   in
   try
